@@ -76,8 +76,38 @@ class _PrefixedReader(io.RawIOBase):
         return self._source.readinto(buffer)  # type: ignore[attr-defined, no-any-return]
 
 
+READ_CHUNK_SIZE = 1 << 16
+
+
+class _ChunkedReader:
+    """
+    View of a binary source that never asks it for more than a chunk at a time.
+
+    Every delimited frame declares its own length. Handing that number straight to
+    ``read`` makes buffered sources (files, gzip, buffered sockets) allocate a buffer
+    of the declared size before a single byte of the frame has arrived.
+    """
+
+    def __init__(self, source: IO[bytes]) -> None:
+        self._source = source
+
+    def read(self, size: int = -1) -> bytes:
+        if size is None or size < 0 or size <= READ_CHUNK_SIZE:
+            return self._source.read(size)
+        chunks = []
+        remaining = size
+        while remaining > 0:
+            chunk = self._source.read(min(remaining, READ_CHUNK_SIZE))
+            if not chunk:
+                break
+            chunks.append(chunk)
+            remaining -= len(chunk)
+        return b"".join(chunks)
+
+
 def frame_iterator(inp: IO[bytes]) -> Generator[jelly.RdfStreamFrame]:
-    while frame := parse_length_prefixed(jelly.RdfStreamFrame, inp):
+    reader = _ChunkedReader(inp)
+    while frame := parse_length_prefixed(jelly.RdfStreamFrame, reader):  # type: ignore[arg-type]
         yield frame
 
 
